@@ -48,12 +48,37 @@ fn register(data: &[u8], fail: Option<(usize, bool)>) -> String {
 }
 fn unregister(key: &str) { streams().lock().unwrap().remove(key); }
 
+/// a producer that stalls: 0 = running, 1 = parked after its first k bytes, 2 = let go
+type Stall = Arc<(Mutex<u8>, std::sync::Condvar)>;
+/// resource key -> (stall after k bytes, its gate): `fault=drop:k`
+fn stalls() -> &'static Mutex<HashMap<String, (usize, Stall)>> {
+    static S: OnceLock<Mutex<HashMap<String, (usize, Stall)>>> = OnceLock::new();
+    S.get_or_init(|| Mutex::new(HashMap::new()))
+}
+fn stall_set(g: &Stall, v: u8) { let (m, cv) = &**g; *m.lock().unwrap_or_else(|e| e.into_inner()) = v; cv.notify_all(); }
+/// wait until the gate's state is at least `want`; false when `limit` went by first
+fn stall_wait(g: &Stall, want: u8, limit: Duration) -> bool {
+    let (m, cv) = &**g;
+    let mut s = m.lock().unwrap_or_else(|e| e.into_inner());
+    let t0 = Instant::now();
+    while *s < want { if t0.elapsed() >= limit { return false; } s = cv.wait_timeout(s, Duration::from_millis(50)).unwrap_or_else(|e| e.into_inner()).0; }
+    true
+}
+
 fn router(chunk: usize, comp: bool) -> Router {
     Router::new().with_writer_stream(
         BodyFormat::Beve,
         move |res: &str| {
             let (data, fail) = streams().lock().unwrap().get(res).cloned()?;
+            let stall = stalls().lock().unwrap().get(res).cloned();
             Some(move |w: &mut dyn Write| -> std::io::Result<()> {
+                if let Some((k, gate)) = stall {
+                    // the first k bytes, then nothing until the case is over; the stream never ends cleanly
+                    w.write_all(&data[..k.min(data.len())])?; w.flush()?;
+                    stall_set(&gate, 1);
+                    stall_wait(&gate, 2, Duration::from_secs(30));
+                    return Err(std::io::Error::other("verif: the stalled producer is let go"));
+                }
                 match fail {
                     Some((k, false)) => { w.write_all(&data[..k.min(data.len())])?; Err(std::io::Error::other("verif: producer fails here")) }
                     Some((k, true)) => { w.write_all(&data[..k.min(data.len())])?; panic!("verif: producer panics here") }
@@ -217,18 +242,21 @@ fn spawn_proxy2(upstream: SocketAddr, ws: bool, quota: usize, trunc: bool) -> st
 struct Val { id: u64, data: Vec<u8>, label: String }
 fn encode_val(v: &Val) -> Vec<u8> { let mut out = Vec::new(); beve::to_writer_streaming(&mut out, v).expect("encode"); out }
 
+#[derive(Clone)]
 struct Case {
     pu: String, tr: String, comp: bool, chunk: usize, trailer: usize,
     stream: Vec<u8>, dst: Option<Vec<u8>>, tmp: Option<Vec<u8>>, fault: String,
     /// a `prod:` failure is a panic of the application's body writer (same expectation: the pull fails)
     pp: bool,
+    /// `fault=drop:k`: how the pull future is dropped (sel: the other branch of a select! completes; abort: the task is aborted)
+    how: String,
 }
 fn content(s: &str) -> Option<Vec<u8>> { if s == "absent" { None } else { Some(unhex(s)) } }
 fn show(c: &Option<Vec<u8>>) -> String { match c { None => "absent".into(), Some(b) => hex(b) } }
 fn parse_case(line: &str) -> Case {
     let f = fields(line);
     Case { pu: f["pu"].clone(), tr: f["tr"].clone(), comp: f["comp"] == "1", chunk: p(&f["chunk"]) as usize, trailer: p(&f["trailer"]) as usize,
-           stream: unhex(&f["stream"]), dst: content(&f["dst"]), tmp: content(&f["tmp"]), fault: f["fault"].clone(), pp: f.get("pp").map(|s| s == "1").unwrap_or(false) }
+           stream: unhex(&f["stream"]), dst: content(&f["dst"]), tmp: content(&f["tmp"]), fault: f["fault"].clone(), pp: f.get("pp").map(|s| s == "1").unwrap_or(false), how: f.get("how").cloned().unwrap_or_default() }
 }
 fn is_value(pu: &str) -> bool { pu == "value" || pu == "avalue" }
 
@@ -264,6 +292,7 @@ fn exec_case(c: &Case, dir: &Path) -> Res {
     let fail = c.fault.strip_prefix("prod:").map(|k| (p(k) as usize, c.pp));
     let cutq = c.fault.strip_prefix("cut:").map(|j| p(j) as usize + 1); // + the open response
     let reject = c.fault == "reject";
+    if let Some(k) = c.fault.strip_prefix("drop:") { return exec_drop(c, dir, p(k) as usize); }
     let (tcp, ws) = match servers(c.chunk, c.comp) { Ok(x) => x, Err(e) => return Res::Crash(format!("setup:servers:{}", e.kind())) };
     let is_ws = c.tr == "ws";
     let trunc = c.fault == "trunc";
@@ -310,6 +339,101 @@ fn exec_case(c: &Case, dir: &Path) -> Res {
     };
     unregister(&key);
     match r { Ok(v) => Res::Ok(v), Err(_) => Res::Err }
+}
+
+/// `fault=drop:k`: an async pull-to-file whose FUTURE IS DROPPED in mid-transfer.  The producer writes
+/// its first k bytes and stalls; once it is parked and the chunks that can be delivered before the
+/// stall have reached the temp file, the pull future is dropped (how=sel: the other branch of a
+/// `tokio::select!` completes, the client lives on; how=abort: the task that owns client and pull is
+/// aborted).  The caller was never told the pull succeeded: the observation is res=err unless the
+/// pull finished by itself first.  Whatever the puller left running (its blocking decoder thread) gets
+/// time to wind down before the caller looks at the directory: 300 ms, then until the temp sibling
+/// is gone (at most 10 s), then 200 ms more.
+fn exec_drop(c: &Case, dir: &Path, k: usize) -> Res {
+    let dst = dir.join("out.bin"); let tmp = dir.join("out.bin.svspart");
+    if !matches!(c.pu.as_str(), "afile" | "averified" | "atrailer") || !matches!(c.how.as_str(), "sel" | "abort") || k > c.stream.len() || c.tmp.is_some() { return Res::Crash("badcase:drop".into()); }
+    let (tcp, ws) = match servers(c.chunk, c.comp) { Ok(x) => x, Err(e) => return Res::Crash(format!("setup:servers:{}", e.kind())) };
+    let is_ws = c.tr == "ws";
+    let addr = if is_ws { ws } else { tcp };
+    let key = register(&c.stream, None);
+    let gate: Stall = Arc::new((Mutex::new(0), std::sync::Condvar::new()));
+    stalls().lock().unwrap().insert(key.clone(), (k, gate.clone()));
+    let cleanup = |key: &str, gate: &Stall| { stall_set(gate, 2); stalls().lock().unwrap().remove(key); unregister(key); };
+    // Some(result): the pull finished by itself; None: its future was dropped
+    type Out = Result<Option<Result<Option<Vec<u8>>, RepeError>>, String>;
+    let (go_tx, go_rx) = tokio::sync::oneshot::channel::<()>();
+    let (end_tx, end_rx) = tokio::sync::oneshot::channel::<()>();
+    let (out_tx, out_rx) = std::sync::mpsc::channel::<Out>();
+    let (c2, key2, dst2, abort) = (c.clone(), key.clone(), dst.clone(), c.how == "abort");
+    runtime().spawn(async move {
+        // (a macro, not a generic function: the pull futures are `Send` only for the concrete clients)
+        macro_rules! driven { ($client:expr) => {{
+            let client = $client;
+            let (c, key, dst, go, end) = (c2, key2, dst2, go_rx, end_rx);
+            if abort {
+                let mut task = tokio::spawn(async move { pull_async(&client, &c, &key, &dst, false).await });
+                tokio::select! {
+                    r = &mut task => r.ok(),
+                    _ = go => { task.abort(); let _ = task.await; None }
+                }
+            } else {
+                let r = tokio::select! {
+                    r = pull_async(&client, &c, &key, &dst, false) => Some(r),
+                    _ = go => None,
+                };
+                // the client (and its connection) outlives the dropped pull until the case is over
+                let _ = tokio::time::timeout(Duration::from_secs(30), end).await;
+                drop(client);
+                r
+            }
+        }} }
+        let out: Out = if is_ws {
+            match tokio::time::timeout(Duration::from_secs(10), WebSocketClient::connect(&format!("ws://{addr}/repe"))).await {
+                Ok(Ok(cl)) => Ok(driven!(cl)),
+                Ok(Err(e)) => Err(format!("setup:connect:{}", e.kind())), Err(_) => Err("setup:connect:timeout".into()) }
+        } else {
+            match tokio::time::timeout(Duration::from_secs(10), AsyncClient::connect(addr)).await {
+                Ok(Ok(cl)) => Ok(driven!(cl)),
+                Ok(Err(e)) => Err(format!("setup:connect:{}", e.kind())), Err(_) => Err("setup:connect:timeout".into()) }
+        };
+        let _ = out_tx.send(out);
+    });
+    // the producer is parked (the stream is open, its first k bytes are on their way) ...
+    let t0 = Instant::now();
+    let mut early: Option<Out> = None;
+    while !stall_wait(&gate, 1, Duration::from_millis(50)) {
+        if let Ok(o) = out_rx.try_recv() { early = Some(o); break; }
+        if t0.elapsed() > Duration::from_secs(15) { cleanup(&key, &gate); return Res::Crash("drop:producer-never-parked".into()); }
+    }
+    if early.is_none() {
+        // ... and what can be delivered before the stall has been written: all full chunks but the
+        // one the server holds back as its lookahead (compressed: the temp file exists); at most 5 s
+        // (a trailer-verifying puller keeps the last `trailer` bytes it has seen to itself)
+        let want = if c.comp { 0 } else { ((k / c.chunk).saturating_sub(1) * c.chunk).saturating_sub(c.trailer) as u64 };
+        let t1 = Instant::now();
+        while t1.elapsed() < Duration::from_secs(5) {
+            if std::fs::metadata(&tmp).map(|m| m.len() >= want).unwrap_or(false) { break; }
+            std::thread::sleep(Duration::from_millis(10));
+        }
+        std::thread::sleep(Duration::from_millis(100));
+        let _ = go_tx.send(());
+    }
+    std::thread::sleep(Duration::from_millis(300));
+    let t2 = Instant::now();
+    while tmp.exists() && t2.elapsed() < Duration::from_secs(10) { std::thread::sleep(Duration::from_millis(20)); }
+    std::thread::sleep(Duration::from_millis(200));
+    // the case is over: the client may go (how=sel), the task reports, the producer is let go; the
+    // caller (run_case_once) then looks at the directory
+    let _ = end_tx.send(());
+    let out = match early { Some(o) => Ok(o), None => out_rx.recv_timeout(Duration::from_secs(15)) };
+    cleanup(&key, &gate);
+    match out {
+        Err(_) => Res::Crash("drop:no-report".into()),
+        Ok(Err(s)) => Res::Crash(s),
+        Ok(Ok(None)) => Res::Err,
+        Ok(Ok(Some(Ok(v)))) => Res::Ok(v),
+        Ok(Ok(Some(Err(_)))) => Res::Err,
+    }
 }
 
 // ---- panics: keep the message ------------------------------------------------------
@@ -615,6 +739,31 @@ fn gen_cases(seed: u64, thorough: bool) -> Vec<String> {
     let mut k = 0usize;
     for l in g.out.iter_mut() {
         if l.contains(" fault=prod:") { k += 1; if k % 3 == 0 { l.push_str(" pp=1"); } }
+    }
+    // G. (appended: the cases above keep their numbers) an async pull-to-file whose future is dropped in
+    //    mid-transfer while the producer stalls after k bytes: (stream length, chunk size, k)
+    {
+        let shapes: Vec<(usize, usize, usize)> = if thorough { vec![(40, 4, 12), (40, 4, 0), (40, 4, 5), (64, 16, 48), (64, 16, 17), (20000, 3000, 9000), (300, 7, 150), (12, 4, 12), (70000, 16384, 49152)] }
+                                                 else { vec![(40, 4, 12), (40, 4, 0), (64, 16, 17), (20000, 3000, 9000), (12, 4, 12)] };
+        let (mut n, mut pushed) = (0usize, 0usize);
+        for &(len, chunk, k) in &shapes {
+            let mut stream = g.rng.bytes(len);
+            if len >= 1000 { for (i, b) in stream.iter_mut().enumerate() { if i % 3 != 0 { *b = (i / 64) as u8; } } }
+            for &(pu, tr) in &[("afile", "tcp"), ("afile", "ws"), ("averified", "tcp"), ("averified", "ws"), ("atrailer", "tcp"), ("atrailer", "ws")] {
+                for comp in [false, true] {
+                    // the pullers that verify and the compressed streams: a share of the shapes (quick)
+                    if !thorough && (pu != "afile" || comp) && (n + len) % 3 != 0 { n += 1; continue; }
+                    for d in dsts.iter() {
+                        n += 1;
+                        let trailer = if has_trailer(pu) { 3.min(len) } else { 0 };
+                        g.push(pu, tr, comp, chunk, trailer, &stream, d, &None, &format!("drop:{}", h(k as u64)));
+                        // both ways of dropping the future meet both destinations, puller by puller
+                        g.out.last_mut().unwrap().push_str(if (pushed / 2 + pushed) % 2 == 0 { " how=sel" } else { " how=abort" });
+                        pushed += 1;
+                    }
+                }
+            }
+        }
     }
     g.out.into_iter().enumerate().map(|(i, c)| format!("i={i} {c}")).collect()
 }
